@@ -18,6 +18,11 @@ END token).  Identifiers, literals, comments and layout are identical in all spe
               final population for every spelling
        D(iii) `bridgepoint.prebuild` of the text as a function body gives the same multiset of ACT_* / V_* / E_*
               instances (class, attribute values) apart from unique ids and the recorded source text `Label`
+  kind 'op' / 'dattr'  the body of an INSTANCE OPERATION of class A / of a DERIVED ATTRIBUTE of A, invoked on an instance:
+                `self` as instance name (relate / unrelate / delete self, using), as navigation start and in
+                assignments; generate .. to self / class / assigner / creator, create event instance + generate,
+                bridge and transform invocations, control stop, rcvd_evt, send - D(i), D(ii) via run_operation /
+                run_derived_attribute, D(iii) via the O_TFR / O_DBATTR prebuilders
   K    the token stream (kind, lexeme with keyword spellings lower-cased) of the real lexer on every spelling
        equals the Lean lexer model's (`lex` + `normTok`).
 The replay of a violation is the pair of programs.
@@ -32,8 +37,8 @@ RULE = ('programs x 5 spellings (lower, UPPER, Capitalised, 2 random per-letter 
         'occurrences and (exec) the lower-case program ran without exception; distinct by lower-case text')
 EXHAUSTIVE = {'quick': False, 'thorough': False}
 ASSUMPTIONS = [
-    'domain: only keyword occurrences in keyword role are re-spelled; identifiers that happen to be spelled like a '
-    'keyword are not generated',
+    'domain: only keyword occurrences in keyword ROLE are re-spelled; a keyword token in a name position (kw_as_identifier: '
+    '`x = To;`) is an identifier whose spelling the parser keeps - such names are not generated and never re-cased',
     'the keyword `self` used as an instance name (relate self to ..) is stored by the parser in its source spelling in '
     '*_variable_name fields; D(i) compares those fields modulo the case of the word self',
     'interpretation and prebuilding are validated on the implementation (D), not modelled in Lean; the Lean theorems '
